@@ -614,7 +614,7 @@ class DefinedShape(BaseShape):
         >>> circle.move(1, 2)
 
         """
-        point = Point2D(*point)
+        point = Point2D(0, 0).move(Point2D(*point))
         for jordan in self.jordans:
             jordan.move(point)
         return self
